@@ -20,8 +20,8 @@ class Defs:
                 for b in pat_binds(n['p']):
                     self.defs.setdefault(b['id'], ('let' if simple else 'part', n['i']))
             elif k == 'For':
-                for b in pat_binds(n['p']):
-                    self.defs.setdefault(b['id'], ('for', n['it']))
+                for b, path in _pat_fields(n['p'], ''):
+                    self.defs.setdefault(b['id'], ('forfield', (n['it'], path)) if path else ('for', n['it']))
             elif k == 'LetE':
                 for b in pat_binds(n['p']):
                     self.defs.setdefault(b['id'], ('part', n['i']))
@@ -51,6 +51,8 @@ class Defs:
                 return self.render(x, depth - 1)
             if kind == 'for':
                 return 'elem(%s)' % self.render(x, depth - 1)
+            if kind == 'forfield':
+                return 'elem(%s)%s' % (self.render(x[0], depth - 1), x[1])
             return 'part(%s)' % self.render(x, depth - 1)
         if k == 'Lit':
             return str(n['v'])
@@ -77,6 +79,22 @@ class Defs:
         if k == 'Block' and not n['st'] and 'e' in n:
             return self.render(n['e'], depth)
         return '<' + str(k) + '>'
+
+
+def _pat_fields(p, path):
+    k = p.get('k')
+    if k == 'Bind':
+        yield p, path
+        if 'sub' in p:
+            yield from _pat_fields(p['sub'], path)
+    elif k == 'PStruct':
+        for name, q in p['f']:
+            yield from _pat_fields(q, path + '.' + name)
+    elif k in ('PTuple', 'PTupleStruct'):
+        for i, q in enumerate(p['a']):
+            yield from _pat_fields(q, path + '.%d' % i if len(p['a']) > 1 else path)
+    elif k == 'PRef':
+        yield from _pat_fields(p['p'], path)
 
 
 def tail(s, n=2):
